@@ -616,7 +616,10 @@ func flushAboveMax(r *mon.Run) {
 		if a.WorkingMiners != b.WorkingMiners {
 			return a.WorkingMiners < b.WorkingMiners
 		}
-		return bytes.Compare(a.Proof, b.Proof) > 0 // larger value (closer to the threshold) first
+		if c := bytes.Compare(a.Proof, b.Proof); c != 0 {
+			return c > 0 // larger value (closer to the threshold) first
+		}
+		return a.Near < b.Near
 	})
 	first := []int{}
 	pick := func(f func(o aboveMaxObs) bool, better func(a, b aboveMaxObs) bool) {
@@ -819,10 +822,12 @@ func qualCases(r *mon.Run, height, wm, ts uint64, cfg int) []Case {
 	rng := r.Rand("qual", height, wm, ts)
 	tail := make([]byte, 48)
 	rng.Read(tail)
+	seenV := map[string]bool{}
 	mk := func(v *big.Int, near string) {
-		if v.Sign() < 0 || v.Cmp(max256) > 0 {
+		if v.Sign() < 0 || v.Cmp(max256) > 0 || seenV[string(v.Bytes())] {
 			return
 		}
+		seenV[string(v.Bytes())] = true
 		out = append(out, Case{Kind: "qual", Proof: proofWithValue(v, tail), Height: height, WorkingMiners: wm, TotalStake: ts, P025: p025, Near: near})
 	}
 	if ts == 0 {
